@@ -86,8 +86,11 @@ def gen_direct_ops(rng, spec, execute_op, view, nops):
                 ids = [rng.randrange(view.n)] * 2       # duplicate id
             rng.shuffle(ids)
             op = dict(kind="fetch", ids=ids)
-        elif r < 0.66:
+        elif r < 0.62:
             op = dict(kind="sleep")
+        elif r < 0.66:
+            # time_keeper.advance_to called directly, target above or below the current simulated time
+            op = dict(kind="advto", rel=rng.choice([-1.0, -0.25, 0.0, 0.5, 2.0]) * rng.choice([1.0, scale, 5.0]))
         elif r < 0.76 and running:
             t = rng.choice(running)
             pick = rng.random()
@@ -126,7 +129,7 @@ def gen_direct_ops(rng, spec, execute_op, view, nops):
                 op = dict(kind="stop", t=view.n + 1)
         if op is None:
             continue
-        if op["kind"] not in ("sleep", "hov"):
+        if op["kind"] not in ("sleep", "hov", "advto"):
             op["dt_in"] = gen_dt(rng, scale)      # real time passes before every backend call, busy_trial_ids included
         if not execute_op(op):
             return
@@ -183,6 +186,17 @@ def run_direct(spec, ops_in, rng=None, nops=0, np_seed=0):
                     be.busy_trial_ids()
                 elif k == "sleep":
                     sh.do_sleep(be, log)
+                elif k == "advto":
+                    to = op["to"] if "to" in op else be.time_keeper.time() + op["rel"]
+                    rec0 = dict(kind="advto", to=float(to))
+                    try:
+                        be.time_keeper.advance_to(to)
+                    except Exception as e:
+                        rec0["err"] = type(e).__name__
+                        log.append(rec0)
+                        raise
+                    rec0["clock"] = be.time_keeper.time()
+                    log.append(rec0)
                 elif k == "hov":
                     bb.hyperparameter_objectives_values(predict_curves=bool(op.get("curves")))
                     log.append(dict(kind="hov", curves=bool(op.get("curves")), clock=be.time_keeper.time()))
@@ -214,7 +228,7 @@ def ops_for_replay(log):
     out = []
     for op in log:
         o = dict(kind=op["kind"])
-        for k in ("cfg", "maxres", "t", "newc", "lvl", "ids", "curves"):
+        for k in ("cfg", "maxres", "t", "newc", "lvl", "ids", "curves", "to"):
             if k in op:
                 o[k] = op[k]
         if "dt_in" in op:
